@@ -16,7 +16,7 @@ EXPLANATION = (
     "a match returns Skip / sets formatting_disabled true|false in the returned Context, and formatting_disabled "
     "makes should_format_node return Skip first. (R-RANGE(order)) NotInRange / Normal are answered only in blocks dominated by "
     "the exit of the leading-comment scan: an ignore directive wins over the formatting range. Not decided: the position of the reproduced slice in the output."
-    "Later rounds: (R-SORTGUARD member walk) the statements shown to should_format_node are the items of an iterator over the whole require group.")
+    "Later rounds: (R-SORTGUARD member walk) the statements shown to should_format_node are the items of an iterator over the whole require group. Rounds 17-19: (R-GUARD) frozen comment tests; (R-RANGE(toggle)) check_toggle_formatting takes no decision on the formatting range.")
 ASSUMPTIONS = ["to_owned/clone of a full_moon node reproduces its tokens and trivia verbatim",
                "rustc MIR and Instance::try_resolve are trusted"]
 
